@@ -79,7 +79,8 @@ def gen(rng, i, tier):
             rng.choice(srcs)["rail"] = "Vbatt rail"
     return {"spec": spec, "seed": rng.randrange(1 << 40), "model": rng.choice(["linear", "sag", "impedance", "noisy"]),
             "steps": rng.choice([1, 4, 7, 15, 40]), "end": rng.choice(["capacity", "cutoff", "already_below", "capacity"]),
-            "history": ["fresh", "identity_change_comp", "index_gaps", "solve_then_move_leaf"][i % 4], "by_rail": i % 3 != 0}
+            "history": ["fresh", "identity_change_comp", "index_gaps", "solve_then_move_leaf"][i % 4], "by_rail": i % 3 != 0,
+            "earlier_run": i % 5 in (1, 3)}
 
 
 def run(ctx, case):
@@ -145,6 +146,22 @@ def run(ctx, case):
         return s_
 
     tags = {"pack": "A"} if rng.random() < 0.3 else {}
+    if phases and case.get("earlier_run"):
+        # an earlier depletion run on the same object with the SAME phase names but other durations (a duty-cycle
+        # study), after which the phases are set to their real durations again
+        import itertools
+
+        alt = {p: G.sig(float(dur) * rng.choice([0.2, 4.0]) + 3.0) for p, dur in phases}
+        kcount = itertools.count()
+
+        def _df0(t, i):
+            return (0.05 * max(0, 2 - next(kcount)), v0, r0)
+
+        with H.quiet():
+            H.call(sysobj.set_sys_phases, alt)
+            H.call(sysobj.batt_life, ref, cutoff=cutoff, pfunc=lambda: (0.05 * 3, v0, r0), dfunc=_df0)
+            H.call(sysobj.set_sys_phases, {p: dur for p, dur in phases})
+        ctx.count("history", "earlier batt_life run with other phase durations")
     _mon.update(on=True, solves=0, dcalls=0)
     try:
         with H.quiet():
